@@ -1353,6 +1353,7 @@ static void initializer2(Token **rest, Token *tok, Initializer *init) {
     // An initializer for a scalar variable can be surrounded by
     // braces. E.g. `int x = {3};`. Handle that case.
     initializer2(&tok, tok->next, init);
+    consume(&tok, tok, ",");
     *rest = skip(tok, "}");
     return;
   }
